@@ -383,7 +383,30 @@ func c13R1(r *Report, rule string) {
 				return false
 			}
 			s, oks := constString(bo.Y)
-			return oks && s == "" && mentions(bo.X, name, 0)
+			if !oks || s != "" {
+				return false
+			}
+			if mentions(bo.X, name, 0) {
+				return true
+			}
+			// name := …; if name == "" { return err }; torrent.Name = name — the value tested is the one that every
+			// assignment of the function gives to Torrent.Name
+			nStores, same := 0, true
+			allInstrs(g.iff.Parent(), func(in ssa.Instruction) {
+				st, ok := in.(*ssa.Store)
+				if !ok {
+					return
+				}
+				fa, ok := st.Addr.(*ssa.FieldAddr)
+				if !ok || fieldVar(fa) == nil || fieldVar(fa).Name() != "Name" || !typeIs(derefType(fa.X.Type()), modPath+"/tor", "Torrent") {
+					return
+				}
+				nStores++
+				if st.Val != bo.X {
+					same = false
+				}
+			})
+			return nStores > 0 && same
 		}, nil},
 		{"G8-block-count-fits", "the block count fits uint32 and int", "no rejecting guard checks that the block count fits the integer types before it sizes the in-flight array", func(g rejGuard) bool {
 			// chunks != int64(uint32(chunks))
